@@ -113,6 +113,19 @@ func init() {
 		Technique: "deductive verification: in-place compaction index invariants, never-longer postcondition of replaceEntities under the stated map assumption, exact buffer sizing of the Escape* functions by a counting invariant (cnt spec function, lemmas proved by induction), no-raw-quote postcondition; VCs discharged by z3/cvc5",
 	})
 	registerProp(&PropSpec{
+		ID: "C14", Title: "strconv parses and formats numbers consistently with the standard library",
+		Sel: []Sel{
+			{Pattern: "strconv.ParseInt", Levels: "SF"}, {Pattern: "strconv.ParseUint", Levels: "SF"},
+			{Pattern: "strconv.LenInt", Levels: "SF"}, {Pattern: "strconv.LenUint", Levels: "SF"}, {Pattern: "strconv.AppendInt", Levels: "SF"},
+		},
+		NotDecided: []string{
+			"ParseFloat/ParseDecimal/AppendFloat values and accuracy (floating point is outside the technique)",
+			"AppendDecimal integer rendering: contract written (exact sizing, sign byte never overwritten) but 3 of 46 obligations need more than the quick time-out (20-way digit-count x 17-way decimals case analysis); not claimed. The sign defect found there was repaired (KNOWN_FINDINGS.txt)",
+			"AppendNumber/ParseNumber round trip (group-size arithmetic with symbolic divisor; the sizing defect found by reading the obligation was repaired, KNOWN_FINDINGS.txt)",
+		},
+		Technique: "deductive verification: ParseInt/ParseUint == decimal value of the longest digit prefix with exact overflow behaviour (recursive spec digitsVal, lemmas by induction), LenInt/LenUint == mathematical digit count, AppendInt == prefix-preserving decimal expansion (quantified digit postcondition); VCs discharged by z3/cvc5",
+	})
+	registerProp(&PropSpec{
 		ID: "C10", Title: "JSON parser accepts every valid document and reproduces it",
 		Sel: []Sel{{Pattern: "json.Parser.*", Levels: "STF"}, {Pattern: "json.NewParser", Levels: "S"}},
 		NotDecided: []string{"every document accepted by encoding/json is accepted (needs induction over the JSON grammar against the iterative state machine)"},
